@@ -120,7 +120,16 @@ def _run_pure(ctx, spec, rng):
                            ("sk_vector_norm", sk_vector_norm, (1, [da, db]))):
         v0, v1 = _v(ctx, fn, col.copy(), *args), _v(ctx, fn, rot.copy(), *args)
         if v0 is not None and v1 is not None:
-            ctx.check("O2:local-unitary-invariant", None, dev=abs(float(np.real(v0)) - float(np.real(v1))), tol=T2, sig=(name,) + base, nt=nt, mech=f"{name}:not-local-unitary-invariant", detail=det)
+            mech = f"{name}:not-local-unitary-invariant"
+            if name == "schmidt_rank" and abs(float(v0) - float(v1)) >= 1:
+                # numpy's default rank threshold sigma_max * max(M, N) * eps is occasionally below the rounding noise of the SVD: a singular value
+                # of ~5e-16 is then counted.  Classified by that mechanism (known finding) when the counted value is at rounding level
+                for vec_, val_ in ((col, v0), (rot, v1)):
+                    sv_ = np.linalg.svd(np.asarray(vec_).reshape(da, db), compute_uv=False)
+                    extra = sv_[rank:int(round(float(val_)))] if float(val_) > rank else np.array([])
+                    if extra.size and extra.max() <= 1e-13 * sv_[0]:
+                        mech = "schmidt_rank:rounding-level-singular-value-counted[numpy-default-rank-threshold]"
+            ctx.check("O2:local-unitary-invariant", None, dev=abs(float(np.real(v0)) - float(np.real(v1))), tol=T2, sig=(name,) + base, nt=nt, mech=mech, detail=det)
 
 
 def _run_mixed(ctx, spec, rng):
